@@ -57,8 +57,11 @@ func opLeaf() *openapi3.SchemaRef {
 		return opRef(v.Str("refname", opNames...))
 	case 4:
 		e := &openapi3.Schema{Type: opTypes("string"), Enum: []any{"a", "b"}}
-		if v.Choose(2) == 1 {
+		switch v.Choose(3) {
+		case 1:
 			e.Type = nil // `enum` without `type` is a valid OpenAPI schema
+		case 2: // an integer enum with a default that is not its first member (the library delivers numbers as float64)
+			e = &openapi3.Schema{Type: opTypes("integer"), Enum: []any{float64(10), float64(20)}, Default: float64(20)}
 		}
 		return &openapi3.SchemaRef{Value: e}
 	default:
@@ -183,6 +186,10 @@ func VerifParserOpenAPI() {
 	v.Assert(v.DeepEqualNilEmpty(s1, s2), "C03: the IR parsed from an OpenAPI document depends on map iteration order")
 	v.Assert(symir.AllResolve(ast.Schemas{s1}), "C05: a reference of the IR parsed from an OpenAPI document does not resolve")
 	v.Assert(s1.Objects.Len() == len(names), "C05: the parser lost or invented a definition")
+	// C10: the default of an enum has the dynamic type of the member it designates
+	s1.Objects.Iterate(func(_ string, o ast.Object) {
+		c10EnumDefaults(o.Type)
+	})
 }
 
 // ---------------------------------------------------------------- C08: constraints extracted from an OpenAPI schema
@@ -273,5 +280,30 @@ func VerifC08OpenAPIConstraints() {
 			}
 		}
 		v.Assert(n == 1, "C08: a bound of the OpenAPI document is missing from the IR, or has another operator or value")
+	}
+}
+
+func c10EnumDefaults(t ast.Type) {
+	switch t.Kind {
+	case ast.KindEnum:
+		if t.Default != nil {
+			found := false
+			for _, m := range t.Enum.Values {
+				found = found || v.DeepEqual(m.Value, t.Default)
+			}
+			v.Assert(found, "C10: the default of an enum parsed from OpenAPI is not one of its members (re-typed or altered)")
+		}
+	case ast.KindArray:
+		c10EnumDefaults(t.Array.ValueType)
+	case ast.KindMap:
+		c10EnumDefaults(t.Map.ValueType)
+	case ast.KindStruct:
+		for _, f := range t.Struct.Fields {
+			c10EnumDefaults(f.Type)
+		}
+	case ast.KindDisjunction:
+		for _, b := range t.Disjunction.Branches {
+			c10EnumDefaults(b)
+		}
 	}
 }
